@@ -81,6 +81,8 @@ class Gateway:
         """Send a message."""
         # Check valid message first.
         try:
+            if not isinstance(message, Message):
+                raise ValidationError("Not a valid Message instance")  # noqa: TRY301
             decoded_message: str = self._message_schema.dump(message)
         except ValidationError as err:
             raise InvalidMessageError(err, message) from err
